@@ -4,8 +4,8 @@
    [partial]: cobra / pflag, fmt and encoding/json are third-party or runtime code; their behaviour enters
    as the merge rule of Model/Cli.v and through the harness's parsing of the binary's output. *)
 From Coq Require Import List ZArith NArith Bool Floats Sorting.Sorted.
-From WTF Require Import Model.Validate Model.Text Model.Engine Model.Cli Model.History
-                        Proofs.EngineProofs Proofs.CliProofs Proofs.HistoryProofs.
+From WTF Require Import Model.Validate Spec.ValidateSpec Model.Text Model.Engine Model.Cli Model.History Model.SearchCommand
+                        Proofs.EngineProofs Proofs.CliProofs Proofs.HistoryProofs Proofs.SearchCommandProofs.
 Import ListNotations.
 
 (* a command tree that passes the boolean check has no command whose merged flag set contains two different
@@ -32,7 +32,31 @@ Theorem cli_history_newest_entry : forall m ops e,
   exists s s', hrun (hnew m) ops = Some s /\ add s e = Some s' /\ last_opt (entries s') = Some e.
 Proof. exact add_records. Qed.
 
+(* the search command as a whole (Model/SearchCommand.v), any engine and recovery search: for an accepted query and limit, the
+   text that is searched and recorded is the validated query itself - clean, and a fixed point of the validator -, what is printed
+   is the answer for THAT text, and the history ends with one entry for that text carrying the number of results printed *)
+Theorem search_command_uses_the_validated_query : forall (R : Type) (engine recovery : list N -> Z -> list R) d q limit now dur ctx h c l,
+  (0 < max_size h)%Z -> validate_query q = ROk c -> validate_limit d limit = ROk l ->
+  let o := search_command R engine recovery d q limit now dur ctx h in
+  ro_rejected o = false /\ ro_query o = c /\
+  clean_spec q c = true /\ validate_query c = ROk c /\
+  ro_printed o = cli_results R l (engine c l) (recovery c l) /\
+  exists h2, ro_hist o = Some (save h2) /\
+    last_opt (entries h2) = Some {| h_query := c; h_time := now; h_results := Z.of_nat (length (ro_printed o));
+                                    h_context := ctx; h_duration := dur |} /\
+    disk (save h2) = FileDoc (FVal (entries h2)) (FVal (max_size h2)).
+Proof. exact accepted_uses_the_validated_query. Qed.
+
+(* ... and for a rejected one nothing is searched, printed or recorded *)
+Theorem search_command_rejected_does_nothing : forall (R : Type) (engine recovery : list N -> Z -> list R) d q limit now dur ctx h,
+  (forall c, validate_query q <> ROk c) \/ (forall l, validate_limit d limit <> ROk l) ->
+  let o := search_command R engine recovery d q limit now dur ctx h in
+  ro_rejected o = true /\ ro_printed o = [] /\ ro_hist o = Some h.
+Proof. exact rejected_does_nothing. Qed.
+
 Print Assumptions cli_starts.
+Print Assumptions search_command_uses_the_validated_query.
+Print Assumptions search_command_rejected_does_nothing.
 Print Assumptions cli_prints_engine_results.
 Print Assumptions cli_prints_at_most_limit.
 Print Assumptions cli_resort_is_identity.
